@@ -125,7 +125,7 @@ func checkC18(c *Ctx) {
 	c.rule("C18.R1", "inventory of the package-level variables of the module packages", 4)
 	c.rule("C18.R2", "no write (store, map update, append-store, write through a callee's pointer parameter) to memory rooted at a package-level variable outside package initialisation and sync.Once initialisers", 1)
 	c.rule("C18.R3", "no mutable reference loaded from a package-level variable is stored into another object, captured by a closure, or passed to a callee, outside the named generated constructors and initialisers", 1)
-	c.rule("C18.R4", "goroutine literals capture only channels and never-reassigned values (C10.R5)", 2)
+	c.rule("C18.R4", "goroutine literals capture only channels and never-reassigned values (C10.R5)", 1)
 	w.SSA()
 	// ----- R1
 	var globals []*ssa.Global
